@@ -26,7 +26,17 @@ class C09Plan(Plan):
     uses_pristine = True
     PRISTINE_EVERY = 20
     SESSION_EVERY = 100
-    SESSION_LEN = 30
+    SESSION_LEN = 80
+    # the unrelated earlier work of a session is simplification-heavy (that is where process-global
+    # bookkeeping -- step budgets, memo tables, registries -- would be touched)
+    SESSION_BASE = {
+        "n_steps": (8, 20), "n_nodes": (8, 30), "early_prob": [0.5, 0.8], "ovf_prob": [0.0, 0.03, 0.1],
+        "weights": {
+            "at": 3, "at_num": 1, "mk_partial": 4, "mk_derivative": 1.5, "mk_differential": 3,
+            "mk_located": 1, "pat": 2, "dat": 1, "comp": 3, "compat": 1, "lcomp": 1, "asx": 6,
+            "build": 2, "norm": 6, "eq": 0.5, "hash": 0.2, "repr": 0.2, "peq": 0.2,
+        },
+    }
 
     def gen(self, rng, tier, index):
         base = None
@@ -38,7 +48,7 @@ class C09Plan(Plan):
         if index % self.SESSION_EVERY == 53:
             # a long session: SESSION_LEN unrelated scenarios executed first in the same pristine process,
             # then this one, whose every step is compared with a reference from a process that ran nothing
-            scn["prefix"] = [gen.gen_scenario(rng, {"n_steps": (8, 24)}) for _ in range(self.SESSION_LEN)]
+            scn["prefix"] = [gen.gen_scenario(rng, self.SESSION_BASE) for _ in range(self.SESSION_LEN)]
             scn["pristine"] = True
         elif index % self.PRISTINE_EVERY == 7:
             # process boundary owned by the simulator: live history in one forked pristine process,
